@@ -195,7 +195,7 @@ def run(prop, tier, seed, backends=BACKENDS, only_universe=None):
     rnd = random.Random(seed)
     design = tlc.DesignCheck([("MC_Store", "MC_Store_%s.cfg" % b, "Store/" + b) for b in backends], workers=3, timeout=1800)
     depth = {"quick": 3, "thorough": 4}[tier]
-    cap = {"quick": 500, "thorough": 20000}[tier]
+    cap = {"quick": 1500 if prop == "C06" else 500, "thorough": 20000}[tier]
     own = prop + "_"
     # phase 1: TLC generates behaviours of Store.tla per (universe, backend, writer mode)
     configs = []
